@@ -176,6 +176,75 @@ theorem rt : (e : Expr) → WF e → RT e
         exact ⟨this.1, fun h15 => htf (by rw [hlvl]; exact this.2 h15)⟩
       · exact fun i h1 h2 => inert_binToks op i term _ hOS h2
       · exact fin_of_conts _ _ _ _ _ _ (by simp only [NonLoop]; omega) hstep
+  | .mem o n, hwf => by
+    intro k term rest out hterm hle hk htf hno hfin
+    have iho := rt o hwf
+    have hlvl : (Expr.mem o n).lvl = 1 := rfl
+    rw [hlvl] at hle hfin
+    have htoks : toks (fmtBody (.mem o n)) = toks (fmtSub o precMember memObjectSide) ++ [.p .Period, .id n] := by
+      simp only [fmtBody, fmtSub]
+      rw [show needParen precMember topPrec topSide = false by decide, wrap_false]
+      simp [pp]
+    rw [htoks]
+    simp only [List.append_assoc, List.cons_append, List.nil_append]
+    refine finish_loop (lv := 1) ?_ (by decide) hle ?_ hno hfin
+    · intro out' hc
+      apply rts iho _ _ 1 term (.p .Period :: .id n :: rest) out' hterm (by omega)
+      · exact fun hp => ⟨pos_postfixLike o _ (Or.inl rfl) hp, fun h => by have := pos_postfixLike o _ (Or.inl rfl) hp; omega⟩
+      · exact fun i h1 h2 => by omega
+      · apply fin_of_conts _ _ _ _ _ _ (by decide)
+        obtain ⟨N, h⟩ := hc
+        refine ⟨N + 1, fun f hf => ?_⟩
+        obtain ⟨f', rfl, hf'⟩ := succ_of_pos hf
+        unfold cont
+        simp [h f' hf']
+    · intro _
+      obtain ⟨t, ts', h1, h2, h3⟩ := head_fmt o hwf precMember memObjectSide
+      rw [h1]
+      simp only [List.cons_append, NoPrefix]
+      apply h3
+      cases hpx : needParen o.prec precMember memObjectSide with
+      | true => exact Or.inl rfl
+      | false => exact Or.inr (pos_postfixLike o _ (Or.inl rfl) hpx)
+  | .sub o i, hwf => by
+    intro k term rest out hterm hle hk htf hno hfin
+    have iho := rt o hwf.1
+    have ihi := rt i hwf.2
+    have hlvl : (Expr.sub o i).lvl = 1 := rfl
+    rw [hlvl] at hle hfin
+    have htoks : toks (fmtBody (.sub o i)) = toks (fmtSub o precArraySubscript subObjectSide) ++
+        (.p .LeftSquareBracket :: (toks (fmtSub i precArraySubscript subIndexSide) ++ [.p .RightSquareBracket])) := by
+      simp only [fmtBody, fmtSub]
+      rw [show needParen precArraySubscript topPrec topSide = false by decide, wrap_false]
+      simp [pp]
+    rw [htoks]
+    simp only [List.append_assoc, List.cons_append, List.nil_append]
+    have hI : Parses 15 .Sequence (toks (fmtSub i precArraySubscript subIndexSide) ++ (.p .RightSquareBracket :: rest))
+        (i, .p .RightSquareBracket :: rest) :=
+      rts_self ihi _ _ 15 .Sequence _ (by decide) (Nat.le_refl _)
+        (fun hp => ⟨by have := pos_postfixLike i _ (Or.inr rfl) hp; omega,
+                    fun h => by have := pos_postfixLike i _ (Or.inr rfl) hp; omega⟩)
+        (noLow_closes 15 _ _ _ (Or.inr (Or.inl rfl))) (fun _ => inert_closes 15 _ _ _ (Or.inr (Or.inl rfl)))
+    refine finish_loop (lv := 1) ?_ (by decide) hle ?_ hno hfin
+    · intro out' hc
+      apply rts iho _ _ 1 term _ out' hterm (by omega)
+      · exact fun hp => ⟨pos_postfixLike o _ (Or.inl rfl) hp, fun h => by have := pos_postfixLike o _ (Or.inl rfl) hp; omega⟩
+      · exact fun i h1 h2 => by omega
+      · apply fin_of_conts _ _ _ _ _ _ (by decide)
+        obtain ⟨N1, h1⟩ := hI
+        obtain ⟨N2, h2⟩ := hc
+        refine ⟨max N1 N2 + 1, fun f hf => ?_⟩
+        obtain ⟨f', rfl, hf'⟩ := succ_of_pos hf
+        unfold cont
+        simp [subscriptTerminator, h1 f' (by omega), h2 f' (by omega)]
+    · intro _
+      obtain ⟨t, ts', h1, h2, h3⟩ := head_fmt o hwf.1 precArraySubscript subObjectSide
+      rw [h1]
+      simp only [List.cons_append, NoPrefix]
+      apply h3
+      cases hpx : needParen o.prec precArraySubscript subObjectSide with
+      | true => exact Or.inl rfl
+      | false => exact Or.inr (pos_postfixLike o _ (Or.inl rfl) hpx)
   | .tern c a b, hwf => by
     intro k term rest out hterm hle hk htf hno hfin
     obtain ⟨wc, wa, wb, ha14⟩ := hwf
